@@ -11,7 +11,7 @@ RULE = ("every operation of every other property's generator (sampled), plus mut
         "non-trivial = a mutated or oversized input")
 FUNCTIONAL = True
 ASSUMPTIONS = ["'promptly' = the whole batch finishes under the harness watchdog; algorithmic cost inherent in a feature (product of alternatives, '*' backtracking) is bounded by the generators (<= 12 groups, <= 6 stars), not by a theorem",
-               "stack depth is a runtime effect the model cannot exhibit: it is watched through the process exit status (20000- and 100000-group patterns are run, expected verdicts checked)"]
+               "stack depth is a runtime effect the model cannot exhibit: it is watched through the process exit status (20000- and 100000-group patterns are run, expected verdicts checked; KF-C17-globdepth: >= ~75000 '*' abort inside the glob crate)"]
 OTHERS = ["c01", "c02", "c03", "c04", "c05", "c06", "c07", "c08", "c09", "c10", "c11", "c12", "c13", "c14", "c15", "c16", "c18", "c19", "c20"]
 TEXT_OPS = {"pat.new", "pat.match", "pat.best", "dewey.new", "dewey.match", "pkgname", "sum.parse", "path.new", "dep.new", "dg.name", "md.from"}
 BYTE_OPS = {"stream", "di.parse", "di.roundtrip", "di.classify", "pl.parse", "pl.entry", "pl.query"}
@@ -127,6 +127,10 @@ def generate(rng, tier):
     cases.append(Case("pat.match", [enc("{}" * 20000 + "x-1"), enc("x-1")], mop="", meta={"nt": True, "src": "deep", "expect": "T"}))
     cases.append(Case("pat.match", [enc("{}" * 100000 + "x-1"), enc("y-1")], mop="", meta={"nt": True, "src": "deep", "expect": "F"}))
     cases.append(Case("pat.match", [enc("x{}" * 5000 + "-1"), enc("x" * 5000 + "-1")], meta={"nt": True, "src": "deep"}))
+    # very many '*': fine up to tens of thousands; the recorded known finding KF-C17-globdepth beyond (recursion in the glob crate)
+    cases.append(Case("pat.match", [enc("*a" * 20000), enc("a" * 20000)], mop="", meta={"nt": True, "src": "deep", "expect": "T"}))
+    cases.append(Case("pat.match", [enc("*a" * 20000), enc("a" * 19999 + "b")], mop="", meta={"nt": True, "src": "deep", "expect": "F"}))
+    cases.append(Case("pat.match", [enc("*a" * 80000), enc("a" * 80000)], mop="", meta={"nt": True, "src": "KF"}))
     return cases
 
 
@@ -144,8 +148,10 @@ def model_post(c, o):
 
 
 def known(c, oi, om, os_):
-    # no known finding is left for C17: the stack overflow on >= ~10^4 brace groups (formerly KF-C17-altdepth) was
-    # repaired in /repo (fix: alternate_match must not overflow the stack ...) and is reported again if it returns
+    # (the stack overflow on >= ~10^4 brace groups, formerly KF-C17-altdepth, was repaired in /repo and is reported again if it returns)
+    # KF-C17-globdepth: the glob crate's matcher recurses once per '*': >= ~75000 stars abort the process
+    if oi == "ABORT" and c.op.startswith("pat.") and c.args and c.args[0].split(" ").count("42") >= 50000:
+        return "KF-C17-globdepth"
     return None
 
 
